@@ -549,9 +549,6 @@ def attach(res, texts, label, audit=True, charset=None, with_ack=True, limit=Non
         for mth in missing:
             res.obligations.append(mth)
             res.broke('theorem:' + mth, 'not found by the audit')
-    # stated domain of the envelope model (C04): count / control-number fields are ASCII (Python's int() also accepts
-    # non-ASCII digits and white space such as U+2028); texts with non-ASCII characters are left to the per-property checks
-    texts = [t for t in texts if all(ord(ch) < 128 for ch in t)]
     texts = list(texts)[:limit] if limit else list(texts)
     if not texts:
         return
